@@ -86,6 +86,77 @@ def gen_case(rng, cid):
     return "\n".join(ls), kind
 
 
+def gen_deep_case(rng, cid):
+    """sequential: one key with several committed versions, snapshots begun at different points of its history, collection
+    passes while they are open, after the oldest ended and after further overwrites; every snapshot re-reads both keys
+    and lists the keys after each step (a snapshot is stable: the answers of one handle never change)"""
+    ls = ["case %s roots=1" % cid, "keytab 61 62"]
+    st = dict(v=0)
+
+    def ow():
+        st["v"] += 1
+        ls.append("set 0 1 %d 3 s" % st["v"])
+    for _ in range(rng.randint(1, 3)):
+        ow()
+    handles = [1]
+    ls.append("begin " + rng.choice(["RR", "SER"]))
+    for _ in range(rng.randint(1, 3)):
+        ow()
+    st["v"] += 1
+    ls.append("set 0 2 %d 3 s" % st["v"])
+    if rng.random() < 0.6:
+        ls.append("gc")
+    handles.append(2)
+    ls.append("begin " + rng.choice(["RR", "SER"]))
+
+    def probe():
+        return ["get %d %d g" % (h, k) for h in handles for k in (1, 2)] + ["keys %d" % h for h in handles]
+    ls += probe()
+    for _ in range(rng.randint(1, 3)):
+        ow()
+    ls += ["gc"] + probe()
+    ls.append(rng.choice(["commit %d", "rollback %d"]) % handles.pop(0))
+    ls += ["gc"] + probe()
+    ow()
+    ls += ["gc"] + probe() + ["end"]
+    return "\n".join(ls)
+
+
+def run_deep(rep, fsdbh, rng):
+    n = 60 if rep.tier == "quick" else 1500
+    cases = [gen_deep_case(rng, "d%d" % i) for i in range(n)]
+    impl = H.run_sharded(fsdbh, "hist", cases)
+    mouts = H.run_model("hist", cases)
+    souts = H.run_model("hist-spec", cases)
+    bad = 0
+    for c, o, m, sp in zip(cases, impl, mouts, souts):
+        m, sp = H.canon(c, m), H.canon(c, sp)
+        ops = [l for l in c.split("\n") if not l.startswith("keytab")]
+        problems = []
+        # stability on the implementation's own answers: one handle, one key -> one answer for as long as the handle lives
+        seen = {}
+        for l, r in zip(ops, o):
+            t = l.split()
+            if t[0] in ("get", "keys") and t[1] != "0":
+                key = (t[0], t[1], t[2] if t[0] == "get" else "")
+                if key in seen and seen[key] != r:
+                    problems.append("snapshot handle %s: %s answered %s, later %s" % (t[1], l, seen[key], r))
+                seen.setdefault(key, r)
+        if o != sp or o != m:
+            d = H.first_diff(o, sp if o != sp else m)
+            problems.append("implementation and %s differ at step %s" % ("specification" if o != sp else "model",
+                                                                         ops[d] if d is not None and d < len(ops) else d))
+        if problems:
+            bad += 1
+            if bad <= 2:
+                rep.violation(dict(kind="oracle", what="a snapshot is not stable across collection passes over a key with several "
+                                   "committed versions: " + "; ".join(problems[:2]), case=c, impl=o, spec=sp))
+    rep.coverage["deep_version_histories"] = dict(cases=n, violations=bad,
+                                                  rule="sequential; 2-6 committed versions of one key around two snapshot Begins, "
+                                                       "collection while both are open / after the older ended / after another overwrite; "
+                                                       "every handle re-reads both keys and GetKeys after each step")
+
+
 def run(rep):
     rng = C.rng_for(rep.seed, "c08")
     proof_ok = C.proof_step(rep, "C08")
@@ -106,6 +177,8 @@ def run(rep):
             rep.known_finding("%s: %s (scripted schedule reproduced: %s)" % (verdict, known[verdict]["what"], why))
         elif verdict != "ok":
             rep.violation(dict(kind="oracle", what=why, case=c, impl=o))
+    # 1b. sequential histories with deep version lists and collection passes (stability of each handle's answers)
+    run_deep(rep, fsdbh, C.rng_for(rep.seed, "c08-deep"))
     # 2. generated races under the real scheduler
     n = 500 if rep.tier == "quick" else 4000
     if LS.broken(sk):
